@@ -44,6 +44,9 @@ def obligations(tier):
         Ob("C18.missing.image", "X", "open_image on a missing image raises OSError (not the internal CachingError) for every option combination",
            ["ceos_alos2.sar_image:open_image", "ceos_alos2.sar_image.caching:read_cache"], bounds="forall use_cache, create_cache, rpc>=1",
            harness="harness/h_missing.py", func="missing_image_ok", timeout=120),
+        Ob("C18.listed", "X", "every image file the summary lists is handed to the image reader (which raises for a missing file, C18.missing.image) - present in the "
+           "directory listing or not; none is skipped", ["ceos_alos2.io:open"], bounds="forall option combinations; one listed image absent from the directory or none; adjacent "
+           "index files present or not; 1..8 images", harness="harness/h_tree.py", func="opts_ok", timeout=600 if tier == "quick" else 1200),
         Ob("C18.short", "L", "leader and volume directory: the leaves tile [0, end) and no Seek occurs, so every strict prefix makes a fixed-size read short",
            ["ceos_alos2.sar_leader.structure:sar_leader_record", "ceos_alos2.volume_directory.structure:volume_directory_record"],
            bounds="forall admissible structure parameters (unbounded)", call="props.c18:ob_short"),
